@@ -79,7 +79,7 @@ SPEC = dict(
                    '(~200k model requests quick, ~6M thorough: every text produced, every parse result, all 3024 substitutions of 50/2000 '
                    'addresses, lenient and malformed inputs; among the addresses ~300 are SOLVED FOR from their text: every str literal of the current '
                    'address.py planted into the friendly text at start / inside / end / twice and into the raw form, friendly texts over sub-alphabets '
-                   '(hex digits only, letters only, alphanumeric only ...), int literals +-1 as workchain); crc16 itself is the C18 translation of crc.py (re-proved each run). The tag '
+                   '(hex digits only, letters only, alphanumeric only ...), int literals +-1 as workchain; ~80 RAW texts whose colon-stripped base64 reading carries a correct CRC-16 at the friendly position, account id solved by GF(2) elimination; ~1000 PAIRS that collide under a wrong packing width - (wc, id) next to (wc + k, id - k * 2^s), s in 0..256 - judged by == / != / hash / set and dict membership); crc16 itself is the C18 translation of crc.py (re-proved each run). The tag '
                    'arithmetic is regenerated from address.py on every run (Generated/AddrTags.lean): the statements of to_str computing the tag '
                    'byte (0x11 / 0x51, |0x80) and the statements of is_b64 decoding it (test flag = bit 7, bounceable iff the rest is 0x11) are '
                    'proved equal to the model for all flag values and all 256 byte values (c13_src_tag, c13_src_b64_flags) and the hand model '
@@ -90,7 +90,7 @@ SPEC = dict(
     ),
     translators=[],
     design_ref='DESIGN.md §6 C13',
-    rule='addresses solved for from their text: every str literal of the current address.py planted into the friendly text (start / inside / end / twice, '
+    rule='pairs (wc, id) / (wc + k, id - k * 2^s) for s in {0, 1, 8, 16, 31, 32, 33, 64, 128, 255, 256} and small k of both signs (exact and mod 2^256), one-field neighbours, one address through two routes; raw texts wc:hex64 that are also CRC-correct under the friendly (base64) reading, for every 4 / 8 character workchain text; addresses solved for from their text: every str literal of the current address.py planted into the friendly text (start / inside / end / twice, '
          'all offsets mod 4) and into the raw form, friendly texts over sub-alphabets (hex only, letters only, alphanumeric ...), int literals +-1 as workchain; '
          'addresses: wc in {-128,-1,0,1,127} u random in -128..127, hash in {00..,ff..,random 32 bytes}; each rendered in 8 friendly variants '
          '+ raw and parsed back; all 48x63 substitutions for 40 (quick) / 2000 (thorough) friendly texts; lenient/malformed texts; '
